@@ -104,7 +104,25 @@ fn gen(depth: usize) -> Vec<T> {
 pub fn search(_obl: &str) -> Vec<Witness> {
     std::panic::set_hook(Box::new(|_| {}));
     let mut found = vec![];
-    // every (outer, inner, side) pair of operators incl. NOT / BETWEEN, then a sample of deeper trees
+    // every (outer, inner, side) pair of binary operators, NOT and BETWEEN on either side
+    let (a, b, c) = (T::Atom("a"), T::Atom("b"), T::Atom("c"));
+    let mut pairs: Vec<T> = vec![];
+    for (o, _) in OPS { for (i, _) in OPS {
+        pairs.push(T::Bin(o, Box::new(T::Bin(i, Box::new(a.clone()), Box::new(b.clone()))), Box::new(c.clone())));
+        pairs.push(T::Bin(o, Box::new(a.clone()), Box::new(T::Bin(i, Box::new(b.clone()), Box::new(c.clone())))));
+    } }
+    for (i, _) in OPS {
+        let inner = T::Bin(i, Box::new(a.clone()), Box::new(b.clone()));
+        pairs.push(T::Not(Box::new(inner.clone())));
+        for neg in [false, true] {
+            pairs.push(T::Btw(neg, Box::new(inner.clone()), Box::new(b.clone()), Box::new(c.clone())));
+            pairs.push(T::Btw(neg, Box::new(a.clone()), Box::new(inner.clone()), Box::new(c.clone())));
+            pairs.push(T::Btw(neg, Box::new(a.clone()), Box::new(b.clone()), Box::new(inner.clone())));
+        }
+        pairs.push(T::Bin(i, Box::new(T::Not(Box::new(a.clone()))), Box::new(b.clone())));
+        pairs.push(T::Bin(i, Box::new(a.clone()), Box::new(T::Not(Box::new(b.clone())))));
+    }
+    for t in pairs { if let Ok(Some(w)) = std::panic::catch_unwind(|| check(&t)) { found.push(w); if found.len() >= 6 { return found; } } }
     for t in gen(2) { if let Ok(Some(w)) = std::panic::catch_unwind(|| check(&t)) { found.push(w); if found.len() >= 6 { break; } } }
     found
 }
